@@ -5,7 +5,7 @@ from props._searchprop import SEARCH_TARGETS, SEARCH_TRUST, run_search_prop, rep
 
 PROP = 'C13'
 LEAN_TARGETS = SEARCH_TARGETS
-THEOREMS = ['MM.Search.' + n for n in ('evaluatedRaw_eq_filter', 'C13_greedy_in_evaluated', 'C13_empty', 'C13_not_better', 'C14_greedy', 'tie_volume', 'tie_geo_ratio')]
+THEOREMS = ['MM.Search.' + n for n in ('evaluatedRaw_eq_filter', 'C13_greedy_in_evaluated', 'C13_empty', 'C13_not_better', 'C14_greedy', 'tie_volume', 'tie_geo_ratio', 'tie_within', 'tie_within_fields')]
 TRUSTED_BASE = SEARCH_TRUST + ['score comparison across the two real searches tolerates last-ulp differences (1e-9 relative)']
 
 
